@@ -15,14 +15,14 @@ RULE = ('Cases: files of 2..6 samples and a weed FASTA made of pieces of the sam
         'containing N, lower case, a fifth gzipped), random sequence, records shorter than k, everything (empty result) or nothing; a few files per run hold thousands of rows and are weeded with thousands of k-mers; the result is written in place, with -o over an existing larger file (the input must stay untouched), or with -o naming the input.  '
         '`ska weed x.skf seqs.fa --min-freq 0` and `--reverse` are compared with the model (rows whose arms are / are not in '
         'the model dictionary of seqs.fa at the file\'s k and strand mode); the stored result is also decoded through the harness (k-mer integers, rows, per-row counts, container lengths); forward and reverse results must partition the '
-        'original, surviving rows keep all bases, names are unchanged, a second identical weed changes nothing.  In '
+        'original, surviving rows keep all bases, names are unchanged, a second identical weed changes nothing.  Error paths: a weed file without any split k-mer (short records, N-riddled, missing) leaves the stored content as it was (in place and with -o over an existing file), and an unwritable -o target does not end in exit 0.  In '
         'single-strand files a reverse-complemented weed sequence must not match.  Widths across k=31/33/35.  Non-trivial: the '
         'weed set removes some but not all rows; distinct = distinct (k, mode, samples, weed records).')
 ASSUMPTIONS = ['frequency filtering is switched off with --min-freq 0 as the statement requires',
                'the model dictionary of the weed file is computed by vlib/model.py']
 REQUIRED = {t: ['weed:forward', 'weed:reverse', 'partition_checked', 'idempotence_checked', 'weed_all', 'weed_nothing',
                 'single_strand_rc_not_matched', 'rows_removed', 'rows_kept', 'width64', 'width128', 'stored_objects_checked',
-                'weed_file_gzipped', 'out:inplace', 'out:same-file', 'out:other-existing-file', 'files_of_4096+_rows'] for t in ('quick', 'thorough')}
+                'weed_without_kmers_leaves_file_intact', 'unwritable_output_refused', 'weed_file_gzipped', 'out:inplace', 'out:same-file', 'out:other-existing-file', 'files_of_4096+_rows'] for t in ('quick', 'thorough')}
 
 
 def builds(tier):
@@ -195,6 +195,45 @@ def run_case(desc, ctx):
                     res.count('idempotence_checked')
             elif Tw:
                 res.violate(sig + ':idempotence', 'second weed failed: %s' % p2.stderr[-150:], {'samples': samples, 'weed': wrecs})
+        if variant == 'rel':
+            # error paths: a weed file that yields no split k-mer (records shorter than k, N-riddled, missing path) is refused or
+            # removes nothing - in both cases the stored file still holds the original content afterwards, in place and with -o
+            # over an existing file; a result that cannot be written must not end in exit 0
+            badweed = rng.choice(['short', 'nriddled', 'missing'])
+            if badweed == 'short':
+                bw = G.write_fa(ctx.path('bad.fa'), [G.rseq(rng, rng.randint(1, k - 1)) for _ in range(3)])
+            elif badweed == 'nriddled':
+                bw = G.write_fa(ctx.path('bad.fa'), [''.join('N' if i % (k - 1) == 0 else c for i, c in enumerate(G.rseq(rng, 5 * k)))])
+            else:
+                bw = ctx.path('no_such_file.fa')
+            for inplace in (True, False):
+                ctx.write('w.skf', original)
+                ctx.write('keep.skf', original)
+                outargs = [] if inplace else ['-o', ctx.path('keep.skf')]
+                pe = ctx.sh(b, 'weed', ctx.path('w.skf'), bw, '--min-freq', '0', *outargs)
+                res.evals += 1
+                problems = []
+                for f in ('w.skf', 'keep.skf'):
+                    try:
+                        hh, TT = G.nk(ctx, ctx.path(f), binary=b)
+                    except (G.NkFailed, ValueError, OSError) as e:
+                        problems.append('%s unreadable afterwards (%s)' % (f, str(e)[:80]))
+                        continue
+                    if TT != T or hh.get('names') != hdr.get('names'):
+                        problems.append('%s changed: %d rows, %d before' % (f, len(TT), len(T)))
+                if problems:
+                    res.violate('C13:refused-weed:' + badweed, 'k=%d weed with a %s weed file (exit %d, %s): %s'
+                                % (k, badweed, pe.returncode, 'in place' if inplace else '-o existing file', '; '.join(problems)), {'samples': samples})
+                else:
+                    res.count('weed_without_kmers_leaves_file_intact')
+            ctx.write('w.skf', original)
+            pu = ctx.sh(b, 'weed', ctx.path('w.skf'), weedfile, '--min-freq', '0', '-o', ctx.path('no_such_dir/out.skf'))
+            res.evals += 1
+            if pu.returncode == 0 or open(ctx.path('w.skf'), 'rb').read() != original:
+                res.violate('C13:unwritable', 'weed -o into a missing directory: exit=%d, input changed=%s'
+                            % (pu.returncode, open(ctx.path('w.skf'), 'rb').read() != original), {'samples': samples})
+            else:
+                res.count('unwritable_output_refused')
         if variant == 'rel' and len(results) == 2:
             fw, rv = results[False], results[True]
             if set(fw) & set(rv) or set(fw) | set(rv) != set(T) or any(T[x] != (fw.get(x) or rv.get(x)) for x in T):
